@@ -105,6 +105,29 @@ int main (int argc, char** argv)
   }, 1);
 #endif
 
+#ifndef SYMX_SYMBOLIC
+  // rectangular impulses much longer than the widths the ties use: a scripted source whose factors are all
+  // distinct drives the square-wave mode, so two generated factors are equal iff they share an impulse; the
+  // reported lag statistics inside a sample (sample size > width) must equal the fraction of pairs (i, i+lag)
+  // that share an impulse, averaged over one full cycle of block/sample alignments
+  fn ("square_long_impulse_plain", [] {
+    struct distinct_mode : public modulated_mode { double next; distinct_mode (mode* s) : modulated_mode (s), next (0) { }
+      double modulation () { next += 1.0; return next; } double get_mod_mean () const { return 1.0; } double get_mod_variance () const { return 1.0; } };
+    const unsigned cfg[][2] = { {2,3}, {3,4}, {4,6}, {5,7}, {6,9}, {16,20}, {100,101}, {128,200}, {255,256}, {256,257}, {257,258}, {300,301}, {300,450}, {520,521}, {1000,1001} };
+    for (auto& c : cfg) { unsigned width = c[0], n = c[1];
+      mode* source = new mode; distinct_mode* script = new distinct_mode (source);
+      square_modulated_mode sq (script, width, n);
+      unsigned a = width, b = n; while (b) { unsigned t = a % b; a = b; b = t; } unsigned nsample = width / a;
+      std::vector<double> same (width, 0.0), factor (n);
+      for (unsigned cycle=0; cycle<2; cycle++) for (unsigned is=0; is<nsample; is++) {
+        for (unsigned i=0; i<n; i++) factor[i] = sq.modulation ();
+        for (unsigned lag=1; lag<width && lag<n; lag++) for (unsigned i=0; i+lag<n; i++) if (factor[i] == factor[i+lag]) same[lag] += 1.0; }
+      unsigned bad = 0; unsigned firstbad = 0; double g0 = 0, r0 = 0;
+      for (unsigned lag=1; lag<width && lag<n; lag++) { double generated = same[lag] / (2.0 * nsample * (n - lag)), reported = sq.get_crosscovariance (lag)[0][0];
+        if (std::fabs (generated - reported) > 1e-12) { if (!bad) { firstbad = lag; g0 = generated; r0 = reported; } bad ++; } }
+      char what[240]; snprintf (what, 240, "rectangular modulation width %u, sample size %u: reported within-sample lag statistics = generated (first mismatch lag %u: generated %.12g, reported %.12g; %u lags)", width, n, firstbad, g0, r0, bad);
+      expect_true (what, bad == 0); } }, 1);
+#endif
   symx::finish ();
   return 0;
 }
